@@ -215,6 +215,7 @@ class MemConn(secsgem.common.Connection):
         self.buf = b""
         self.replies = {}      # system -> (stream, function, body)
         self.primaries = []    # (stream, function, body) sent by the equipment
+        self.primary_systems = []   # system bytes of the primaries, same order
         self.control = []      # (s_type, system)
         self.mute = set()      # (stream, function) primaries the host does NOT answer (fault input)
 
@@ -240,6 +241,7 @@ class MemConn(secsgem.common.Connection):
                     self.control.append((stype, system))
                 elif fn % 2 == 1:
                     self.primaries.append((stream, fn, body))
+                    self.primary_systems.append(system)
                     if wbit or (stream, fn) == (5, 1):
                         # S5F1 goes out without the W bit, yet set_alarm/clear_alarm wait (T3) for an S5F2: answer it anyway
                         out.append((stream, fn, system))
